@@ -9,6 +9,7 @@ From Coq Require Import String.
 From NC Require Import Model.JunosParse Model.JunosSax Proofs.JunosParseProofs Proofs.JunosSaxProofs.
 From NC Require Import Model.Base Model.Lit Model.SaxFilter Spec.Projection Proofs.SaxProofs.
 From NC Require Import Spec.ProjectionW Proofs.SaxWrapperProofs.
+From NC Require Import Model.Utf8 Model.Framing11 Spec.RefFraming Model.JunosParse11 Proofs.JunosParse11Proofs.
 
 (* Whatever the environment and the handler state: two event streams that are re-segmentations of each other
    (same canonical form: adjacent character events merged, empty ones dropped) leave the same bytes in the buffer
@@ -395,3 +396,76 @@ Example C18_ex_stuck :
   stat (toy_run toy_init [L "a?b]]>]]>"]) = Stuck WExpat /\
   toy_run toy_init [L "a?"; L "b]]>]]>"] = toy_run toy_init [L "a?b]]>]]>"].
 Proof. vm_compute. split; reflexivity. Qed.
+
+(* ---------------- the driver on a base:1.1 session (Model/JunosParse11.v) ---------------- *)
+(* Chunked framing: DefaultXMLParser.parse/_parse11 puts the messages together (C01's model Framing11.feed11, unchanged)
+   and JunosXMLParser._dispatch11 runs every complete message through a fresh filter machine: its output is dispatched
+   when the machine reads the message to its end, the message as received when it signals the switch (request without
+   filter, not a reply) or expat rejects it.  Whatever the machine and the session side, no conditions: the session
+   side of a run (world, messages dispatched in order, octets each message's parser consumed, the exception that ended
+   the session if any) depends on the concatenation of the reads only. *)
+Theorem C18_base11_reads_independent :
+  forall (W X : Type) (xnew : W -> X) (xstep : W -> X -> N -> xres X) (xrooted : X -> bool)
+         (dispatch : W -> bool -> bytes -> dres W) w reads1 reads2,
+    concat reads1 = concat reads2 ->
+    fst (run11 W X xnew xstep xrooted dispatch (init11s W w) reads1) =
+    fst (run11 W X xnew xstep xrooted dispatch (init11s W w) reads2).
+Proof. exact c18_base11_reads_independent. Qed.
+Print Assumptions C18_base11_reads_independent.
+
+(* ... and not on the chunking either: for messages (valid UTF-8) each sent in any number of non-empty chunks (cut at
+   octet granularity: inside a tag or a multi-byte character), read in any segmentation, every message goes through
+   the filter exactly once, complete, in order ([enc11]: the RFC 6242 encoder of Spec/RefFraming.v). *)
+Theorem C18_base11_chunking :
+  forall (W X : Type) (xnew : W -> X) (xstep : W -> X -> N -> xres X) (xrooted : X -> bool)
+         (dispatch : W -> bool -> bytes -> dres W) w (css : list (list bytes)) (reads : list bytes),
+    Forall (Forall (fun c => c <> [])) css -> Forall (fun cs => utf8_valid (concat cs) = true) css ->
+    concat reads = enc11 css ->
+    fst (run11 W X xnew xstep xrooted dispatch (init11s W w) reads) =
+    deliver11 W X xnew xstep xrooted dispatch (start11 W w) (map (fun cs => Framing10.Deliver (concat cs)) css).
+Proof. exact c18_base11_chunking. Qed.
+Print Assumptions C18_base11_chunking.
+
+(* The filter is the one of base:1.0: a message the filter machine reads to its end (a reply to a request with a
+   filter), without leading white space and without "]]>]]>" inside, is dispatched as the same octets (the handler's
+   output), to the same effect on the session, as when it arrives in end-of-message framing. *)
+Theorem C18_base11_as_base10 :
+  forall (W X : Type) (xnew : W -> X) (xstep : W -> X -> N -> xres X) (xrooted : X -> bool)
+         (dispatch : W -> bool -> bytes -> dres W) w t x o,
+    find_sub Framing10.delim10 (t ++ Framing10.delim10) = Some (t, []) -> blstrip t = t ->
+    feed W X xstep xrooted w (xnew w) t = FOk x o ->
+    let s10 := JunosParse.parse W X xnew xstep xrooted dispatch (JunosParse.init W X xnew w) (t ++ Framing10.delim10) in
+    let d11 := dispatch11 W X xnew xstep xrooted dispatch (start11 W w) t in
+    wd s10 = dw d11 /\ outs s10 = douts d11 /\
+    match stat s10 with JunosParse.Dead e => Some e | JunosParse.Run _ => None | _ => Some 0 end = ddead d11.
+Proof. exact c18_base11_as_base10. Qed.
+Print Assumptions C18_base11_as_base10.
+
+(* non-vacuity, the toy machine of above: three chunked messages -- "ab" (one chunk), "!cd" (chunks "!" and "cd": the
+   switch signal), "a?b" (expat rejects) -- uncut and cut inside chunk headers, chunk data and end-of-chunks: "ab" is
+   dispatched as written by the handler, the other two as received; the parsers consumed "ab", "!", "a?". *)
+Definition toy_run11 := run11 unit nat (fun _ => O) toy_step toy_rooted (fun w _ _ => DOk w true).
+Definition NL : bytes := [10].
+Definition toy_stream11 : bytes :=
+  NL ++ L "#2" ++ NL ++ L "ab" ++ NL ++ L "##" ++ NL ++
+  NL ++ L "#1" ++ NL ++ L "!" ++ NL ++ L "#2" ++ NL ++ L "cd" ++ NL ++ L "##" ++ NL ++
+  NL ++ L "#3" ++ NL ++ L "a?b" ++ NL ++ L "##" ++ NL.
+
+Example C18_ex_base11_run :
+  fst (toy_run11 (init11s unit tt) [toy_stream11]) =
+  mkd tt [(true, L "ab"); (false, L "!cd"); (false, L "a?b")] [L "a?"; L "!"; L "ab"] None /\
+  toy_run11 (init11s unit tt) (segments toy_stream11 [2; 3; 5; 2; 6; 1; 9]%nat) = toy_run11 (init11s unit tt) [toy_stream11] /\
+  toy_stream11 = enc11 [[L "ab"]; [L "!"; L "cd"]; [L "a?b"]].
+Proof. vm_compute. repeat split; reflexivity. Qed.
+
+(* a framing error (octets that can not begin a chunk header) ends the session; messages before it were dispatched *)
+Example C18_ex_base11_framing_error :
+  fst (toy_run11 (init11s unit tt) [NL ++ L "#2" ++ NL ++ L "ab" ++ NL ++ L "##" ++ NL ++ L "<x/>"]) =
+  mkd tt [(true, L "ab")] [L "ab"] (Some (E_FRAMING Framing10.K_FRAMING)).
+Proof. vm_compute. reflexivity. Qed.
+
+(* the hypotheses of C18_base11_as_base10 are satisfiable: "ab" under either framing *)
+Example C18_ex_base11_as_base10 :
+  find_sub Framing10.delim10 (L "ab" ++ Framing10.delim10) = Some (L "ab", []) /\ blstrip (L "ab") = L "ab" /\
+  feed unit nat toy_step toy_rooted tt O (L "ab") = FOk 2%nat (L "ab").
+Proof. vm_compute. repeat split; reflexivity. Qed.
